@@ -31,7 +31,8 @@ pub fn take_keys(instance: usize) -> Vec<SessionKeys> {
 
 /// Publication probe: called (if installed) right after each of the three statements that publish
 /// `Connected` — 1: the state, 2: `write_epoch`, 3: `write_seq` — so the harness can act as a
-/// concurrent sender at exactly these points.
+/// concurrent sender at exactly these points.  Point 4: in `send_record`, between the epoch load and the sequence
+/// number allocation (the harness lines concurrent senders up there).
 type Probe = std::sync::Arc<dyn Fn(usize, u8) + Send + Sync>;
 static PROBE: Mutex<Option<Probe>> = Mutex::new(None);
 
